@@ -14,7 +14,7 @@ from fontTools.designspaceLib import DesignSpaceDocument
 from fontTools.feaLib.builder import addOpenTypeFeatures
 from fontTools.misc.fixedTools import otRound
 from fontTools.misc.transform import Identity
-from fontTools.pens.filterPen import DecomposingFilterPointPen
+from fontTools.pens.filterPen import DecomposingFilterPointPen, FilterPointPen
 from fontTools.pens.reverseContourPen import ReverseContourPen
 from fontTools.pens.transformPen import TransformPen
 
@@ -54,6 +54,29 @@ def makeOfficialGlyphOrder(font, glyphOrder=None):
     return order
 
 
+class _DropIdentifiersPointPen(FilterPointPen):
+    """Pass contours on without their contour and point identifiers.
+
+    Identifiers must be unique within a glyph, and the contours of a component
+    may be copied into a glyph next to contours that use the same identifiers,
+    or several times.
+    """
+
+    def beginPath(self, identifier=None, **kwargs):
+        self._outPen.beginPath(**kwargs)
+
+    def addPoint(
+        self,
+        pt,
+        segmentType=None,
+        smooth=False,
+        name=None,
+        identifier=None,
+        **kwargs,
+    ):
+        self._outPen.addPoint(pt, segmentType, smooth, name, **kwargs)
+
+
 def decomposeCompositeGlyph(
     glyph,
     glyphSet,
@@ -66,7 +89,7 @@ def decomposeCompositeGlyph(
     if len(glyph.components) == 0:
         return
     pen = DecomposingFilterPointPen(
-        glyph.getPointPen(),
+        _DropIdentifiersPointPen(glyph.getPointPen()),
         glyphSet,
         reverseFlipped=reverseFlipped,
         include=include,
